@@ -110,7 +110,15 @@ class EvolventMachine(MachineMixin, RuleBasedStateMachine):
 
     def _image(self, x):
         who = "GetImage(%r) [N=%d, m=%d, bounds %r..%r]: " % (x, self.n, self.m, self.lo, self.hi)
-        y = self.ev.GetImage(x)
+        if (len(self.xs) + len(self.ys)) % 4 == 3:
+            # the abscissa handed over as a 0-d array (what indexing an array with [()] or np.asarray(x) gives)
+            arg = np.array(x, dtype=np.double)
+            y = self.ev.GetImage(arg)
+            if arg.shape != () or float(arg) != float(x):
+                fail(who + "the argument, a 0-d array, was modified: %r -> %r" % (x, arg.tolist()))
+            self.cls.add("x-as-0d-array")
+        else:
+            y = self.ev.GetImage(x)
         want = self.fresh().GetImage(x)
         if not isinstance(y, np.ndarray) or y.dtype != want.dtype or not np.array_equal(y, want):
             fail(who + "returned %r, a brand-new Evolvent returns %r (previous call: %r)" %
